@@ -390,6 +390,36 @@ func c04Worker(sh *explore.Shard) {
 			return true
 		})
 	}
+	// wide trees: 255, 256, 257 and 600 subdirectory entries (same subtree and
+	// distinct subtrees) below a root, in both delivery orders
+	for _, width := range []int{255, 256, 257, 600} {
+		for _, distinct := range []bool{false, true} {
+			idx++
+			if !sh.Mine(idx) || sh.Expired() {
+				continue
+			}
+			r := mrepo.New()
+			lv := gen.AddLeaves(r)
+			var es []mrepo.Entry
+			for i := 0; i < width; i++ {
+				leafEntries := []mrepo.Entry{{Mode: 0o100644, Name: "f", Child: lv.BlobA}}
+				if distinct {
+					leafEntries = append(leafEntries, mrepo.Entry{Mode: 0o100644, Name: fmt.Sprintf("g%d", i), Child: lv.BlobB})
+				}
+				es = append(es, mrepo.Entry{Mode: 0o40000, Name: fmt.Sprintf("d%03d", i), Child: r.AddTree(leafEntries)})
+			}
+			wide := r.AddTree(es)
+			top := r.AddTree([]mrepo.Entry{{Mode: 0o40000, Name: "objects", Child: wide}, {Mode: 0o100644, Name: "readme", Child: lv.BlobC}})
+			c := r.AddCommit(mrepo.CommitSpec{Tree: top, Time: gen.T0, Message: "wide\n"})
+			r.SetRef("refs/heads/main", c)
+			sc := &gen.Scenario{Repo: r, Desc: fmt.Sprintf("wide tree width=%d distinct=%v", width, distinct)}
+			l := defaultListing(sc)
+			n.beginScenario()
+			n.one(sc, l.IDs, sizes.NameStyleNone, true, nil)
+			n.one(sc, reverseNonCommits(r, l), sizes.NameStyleNone, true, nil)
+			sh.C.Nontrivial++
+		}
+	}
 	// name-byte variety on single-tree shapes (names only enter through len)
 	names := []string{"x y", "\xff\xfe", strings.Repeat("n", 255), strings.Repeat("m", 4096), "tab\tname", "-dash", "é"}
 	for i, nm := range names {
@@ -464,6 +494,10 @@ func mixedScenarios(tier string, f func(r *mrepo.Repo, special map[string]mrepo.
 				r.SetRef("refs/heads/main", c2)
 				r.SetRef("refs/heads/side", c1)
 				r.SetRef("refs/tags/lw", T0)
+				if shape%2 == 1 {
+					// a reference straight at a blob that the trees may contain as well
+					r.SetRef("refs/tags/lwblob", lv.BlobA)
+				}
 				var tA, tB mrepo.ID
 				switch tagcfg {
 				case 1:
@@ -949,7 +983,7 @@ func init() {
 	Registry["C03"] = &Check{Level: "model_checking", Worker: c03Worker, QuickBudget: 50 * time.Second, ThoroughBudget: 10 * time.Minute,
 		Rule: "all commit DAGs on n commits (n<=4 quick, n<=5 thorough) x all non-empty root subsets x all linear extensions of the listing; all tag forests on m tags (m<=4 / 5) x all non-empty root subsets x all m! listing orders; max_history_depth and max_tag_depth compared with the longest-chain oracle; real git deciding the order: every DAG on n<=3 (quick) / n<=4 (thorough) commits x every assignment of distinct timestamps (children older than parents included) through the real binary with real git. non-trivial = scenario with more than one admissible order", Assumptions: asm}
 	Registry["C04"] = &Check{Level: "model_checking", Worker: c04Worker, QuickBudget: 50 * time.Second, ThoroughBudget: 10 * time.Minute,
-		Rule: "all tree DAGs with <=3 generated trees over the tier's name/leaf alphabet x all listing permutations of the trees; other trees reached from a lightweight tag or an annotated tag of a tree; special-name single shapes; seven checkout dimensions compared separately with the recursive-expansion oracle. non-trivial = scenario with more than one listing order", Assumptions: asm}
+		Rule: "all tree DAGs with <=3 generated trees over the tier's name/leaf alphabet x all listing permutations of the trees; other trees reached from a lightweight tag or an annotated tag of a tree; wide trees (255/256/257/600 subdirectories); special-name single shapes; seven checkout dimensions compared separately with the recursive-expansion oracle. non-trivial = scenario with more than one listing order", Assumptions: asm}
 	Registry["C09"] = &Check{Level: "model_checking", Worker: c09Worker, QuickBudget: 50 * time.Second, ThoroughBudget: 10 * time.Minute,
 		Rule: "for each mixed repository (trees x commit shapes x tag configurations): every listing permutation of trees, tags, blobs and every linear extension of commits (capped per scenario, cap reported) and every permutation of the reference listing; all numeric keys must equal the first order's and the oracle's; root-order family (every subset of aliasing references x every permutation of the reference listing x 3 ROOT lists); explicit-state search at the Graph API with full state keys (states = delivered sets, every path into a set must give the same canonical key of the entire private state; tree DAGs with 3 (4) generated trees, a 10 (12)-tree shared DAG, all tag forests on 5 (6) tags); storage layouts with real git (loose, pack-refs, repack -ad, gc, gc --aggressive --prune=now, repack -f --depth=1) on every 37th (quick) / 5th (thorough) mixed repository: byte-identical JSON equal to the oracle", Assumptions: asm}
 }
